@@ -110,7 +110,7 @@ def run(tier):
     out = os.path.join(wd, "race.json")
     env = dict(vlib.GOENV, GORACE="halt_on_error=0 exitcode=66")
     p = subprocess.run([os.path.join(vlib.HBIN, "racedrv-race"), "-pairs", pf, "-out", out, "-seed", str(sd), "-storm", "700" if quick else "6000",
-                        "-pooled", "1" if quick else "3", "-shared", "2" if quick else "8", "-primes", os.path.join(vlib.VERIF, "fixtures", "safeprimes.json")],
+                        "-pooled", "1" if quick else "3", "-shared", "3" if quick else "9", "-primes", os.path.join(vlib.VERIF, "fixtures", "safeprimes.json")],
                        env=env, capture_output=True, text=True, timeout=3000)
     if not os.path.exists(out):
         raise vlib.Inconclusive("racedrv failed: %s" % (p.stdout + p.stderr)[-2000:])
@@ -135,6 +135,21 @@ def run(tier):
                           "%s: %s and %s called concurrently: %s" % (pr["handler"], pr["a"], pr["b"], res["problem"]), res)
     rep.add_counts(evaluations=len(pairs))
     rep.sample({"kind": "method pair run under the race detector", "pair": pairs[0]})
+    # ---- 3b. every causal delivery order of one handler in which one peer's message fails verification (HandlerLocal.tla,
+    #          bad mode): whether the failing message is met on arrival or, having arrived early, when its round is entered,
+    #          the handler must end exactly as the specification says (error naming that peer), without a panic, its
+    #          channel closed exactly once
+    vlib.build(["hsim"])
+    for shape, n, proto in ([("b,bm", 3, "toy:b,bm")] if quick else [("b,bm", 3, "toy:b,bm"), ("bm,bm", 3, "toy:bm,bm"), ("b,b,b", 3, "toy:b,b,b"), ("m", 3, "toy:m")]):
+        if shape not in hc.SHAPES:
+            continue
+        bs, bg, bn, bf = hc.bad_orders(wd, rep, shape, n, proto, sd, dup=0 if quick else 1)
+        states += bs; trans += bg
+        rep.add_counts(evaluations=bn)
+        rep.notes.append("HandlerLocal.tla bad mode, shape %s: %d delivery orders with one failing message replayed on the real handler (%s)" % (shape, bn, proto))
+        for f in bf:
+            rep.violation({"proto": proto, "what": "bad-order-" + f["what"]},
+                          "%s, failing message in slot %s: replaying a TLC-enumerated delivery order on the real handler: %s (%s)" % (proto, f["slot"], f["what"], f["detail"]), f)
     # ---- 4. Stop at every point of real sessions + calls after the end, validated against Handler.tla
     scen = []
     for proto, n, t, dl in (("frost-keygen", 3, 1, 14), ("frost-sign", 3, 2, 8), ("xor", 3, 0, 5), ("toy:b,bm,b", 3, 1, 20), ("taproot-keygen", 3, 1, 14)):
